@@ -107,7 +107,13 @@ pub fn compile<TCompilationProfile: CompilationProfile>(
     );
 
     let total_artifacts_written = apply_file_system_operations(&file_system_operations, &artifacts)
-        .map_err(Diagnostic::from)?;
+        .map_err(|e| {
+            // The operations may have been applied only partially. Forget what we
+            // believe is on disk, so that the next compile recreates everything
+            // instead of diffing against files that were never written.
+            state.file_system_state = None;
+            Diagnostic::from(e)
+        })?;
 
     CompilationStats {
         client_field_count: stats.client_field_count,
